@@ -328,6 +328,8 @@ inline std::vector<double> alphabet(const std::string &name) {
     if (name == "H2") return {1, 100};                 // extreme ratio: adversarial for approximation guarantees
     if (name == "OH") return {-500};
     if (name == "A2H") return {-600};                  // edge #0 weighs 1000, every other edge ranges over {1,2}: 2^(m-1) weightings                   // "one heavy edge": m weightings, edge idx weighs 1000, the others 1 + (j mod 2)
+    if (name == "PM") return {-700};                   // all m! assignments of the distinct weights 1..m (no ties between edges; sums may still tie)
+    if (name == "PM2") return {-701};                  // all m! assignments of the weights 2^0..2^(m-1) (no two edge sets weigh the same: every optimum is unique)
     if (name == "P") return {1, 2, 4, 8, 16, 32, 64, 128, 256, 512, 1024, 2048, 4096, 8192, 16384, 32768, 65536, 131072, 262144, 524288, 1048576};
     fprintf(stderr, "unknown alphabet %s\n", name.c_str()); exit(2);
 }
@@ -337,6 +339,7 @@ inline bool is_random_menu(const std::vector<double> &A) { return A.size() == 2 
 inline uint64_t num_weightings(const std::vector<double> &A, int m) {
     if (is_random_menu(A)) return (uint64_t) A[1];
     if (A.size() == 1 && A[0] == -500) return (uint64_t) std::max(m, 1);
+    if (A.size() == 1 && (A[0] == -700 || A[0] == -701)) { uint64_t f = 1; for (int i = 2; i <= m; ++i) f *= (uint64_t) i; return f; }
     if (A.size() == 1 && A[0] == -600) return m >= 1 ? (1ull << (m - 1)) : 1;
     if (A.size() == 1 && A[0] < 0) return 1;
     return ipow(A.size(), m);
@@ -346,6 +349,11 @@ inline void weighting(const std::vector<double> &A, int m, uint64_t idx, std::ve
     w.resize(m);
     if (is_random_menu(A)) { int k = (int) (-A[0] - 1000); uint64_t st = 0x9e3779b97f4a7c15ull ^ (idx * 1000003ull + (uint64_t) m * 7919ull); lcg_next(st); for (int i = 0; i < m; ++i) w[i] = 1 + (double) (lcg_next(st) % (uint64_t) k); return; }
     if (A.size() == 1 && A[0] == -600) { for (int i = 1; i < m; ++i) w[i] = 1 + ((idx >> (i - 1)) & 1); if (m > 0) w[0] = 1000; return; }
+    if (A.size() == 1 && (A[0] == -700 || A[0] == -701)) {      // factoradic unranking of permutation number idx
+        std::vector<int> pool(m); for (int i = 0; i < m; ++i) pool[i] = i;
+        for (int i = 0; i < m; ++i) { uint64_t f = 1; for (int j = 2; j <= m - 1 - i; ++j) f *= (uint64_t) j; int d = (int) (idx / f); idx %= f; int v = pool[d]; pool.erase(pool.begin() + d); w[i] = A[0] == -700 ? (double) (v + 1) : (double) (1ull << v); }
+        return;
+    }
     if (A.size() == 1 && A[0] == -500) { for (int i = 0; i < m; ++i) w[i] = 1 + i % 2; if (m > 0) w[idx % (uint64_t) m] = 1000; return; }
     if (A.size() == 1 && A[0] < 0) { int k = (int) -A[0]; for (int i = 0; i < m; ++i) w[i] = 1 + i % k; return; }
     for (int i = 0; i < m; ++i) { w[i] = A[idx % A.size()]; idx /= A.size(); }
